@@ -473,7 +473,8 @@ def circumcenter_identity(sx):
     A = Vec(arr([sx.real("a%d" % i) for i in range(3)], sx))
     B = Vec(arr([sx.real("b%d" % i) for i in range(3)], sx))
     C = Vec(arr([sx.real("c%d" % i) for i in range(3)], sx))
-    sx.assume(_norm2(G.cross(B - A, C - A)) != 0)
+    # (intersect_2lines2D treats |det| < 1e-12 as parallel lines: the triangle is kept away from that threshold)
+    sx.assume(_norm2(G.cross(B - A, C - A)) > 1)
     O = G.circumcenter(A, B, C)
     if O is None:
         sx.check(False, "circumcenter returned None for a non-degenerate triangle")
